@@ -564,6 +564,7 @@ func (cb *chunkBuilder) reset() {
 
 func (cb *chunkBuilder) add(cols map[string]*btapb.ColumnFamily, r *btpb.Row) bool {
 	scrubRow(r, cols)
+	start := len(cb.chunks)
 	newRow := true
 	for _, fam := range r.Families {
 		newFam := true
@@ -602,7 +603,8 @@ func (cb *chunkBuilder) add(cols map[string]*btapb.ColumnFamily, r *btpb.Row) bo
 	if len(cb.chunks) > 0 {
 		cb.chunks[len(cb.chunks)-1].RowStatus = &btpb.ReadRowsResponse_CellChunk_CommitRow{CommitRow: true}
 	}
-	return true
+	// A row whose cells were all filtered away produces no output and must not count towards rows_limit.
+	return len(cb.chunks) > start
 }
 
 // filterRow modifies a row with the given filter. Returns true if at least one cell from the row matches,
